@@ -146,16 +146,39 @@ def gen_pre(rng, N):
     for _ in range(rng.choice([1, 1, 2])):
         st = rng.randint(0, N - 1)
         out.append({"op": rng.choice(PRE_OPS), "start": st, "nsamps": rng.randint(1, N - st), "gulp": rng.randint(1, N + 2)})
+    r = rng.random()
+    if r < 0.25:
+        # a call the library refuses by itself (range beyond the end of the data): the object is used again afterwards
+        out.append({"op": rng.choice(PRE_OPS), "start": 0, "nsamps": 1, "gulp": rng.randint(1, N + 2), "bad": rng.choice(["start-beyond-end", "range-beyond-end"])})
+    elif r < 0.45:
+        # the caller modifies, in place, arrays the library handed out (they are the caller's: plotting code shifts the
+        # frequency axis to channel edges, rescales a block, ...)
+        out.append({"op": "scribble", "start": 0, "nsamps": 1, "gulp": 1})
+    rng.shuffle(out)
     return out
 
 
 def run_pre(reader, pre, ctx) -> None:
     for o in pre:
+        st, ns = o["start"], o["nsamps"]
+        if o.get("bad"):
+            N = int(reader.header.nsamples)
+            st, ns = (N + 3, 2) if o["bad"] == "start-beyond-end" else (max(0, N - 1), 5)
+            ctx.probe("pre-history:call-the-library-refuses")
         try:
-            if o["op"] == "read_block":
-                reader.read_block(o["start"], o["nsamps"])
+            if o["op"] == "scribble":
+                ctx.probe("pre-history:caller-modifies-returned-arrays")
+                hdr = reader.header
+                for attr in ("chan_freqs",):
+                    arr = getattr(hdr, attr, None)
+                    if isinstance(arr, np.ndarray) and arr.flags.writeable:
+                        arr += 0.5 * float(hdr.foff)
+                blk = reader.read_block(0, 1)
+                np.asarray(blk.data)[...] = 77
+            elif o["op"] == "read_block":
+                reader.read_block(st, ns)
             else:
-                getattr(reader, o["op"])(gulp=o["gulp"], start=o["start"], nsamps=o["nsamps"], quiet=True)
+                getattr(reader, o["op"])(gulp=o["gulp"], start=st, nsamps=ns, quiet=True)
         except Exception as e:  # noqa: BLE001 - the pre-history is context, not the call under test
             ctx.observations["pre-history-raised:" + type(e).__name__] += 1
         ctx.probe("pre-history-call")
